@@ -189,6 +189,46 @@ class _Scoped:
         return _Scoped(self._b, f"{self._s}.{suffix}")
 
 
+class Filtered:
+    """A view of a report that keeps only the obligations `keep(rule, anchor, instance)` accepts (used where one property's
+    check evaluates part of another property's rule: only the part its own chain of reasoning rests on)."""
+
+    def __init__(self, base, keep):
+        self._b, self._keep = base, keep
+        self.prop, self.tier = base.prop, base.tier
+
+    def ok(self, rule, anchor, instance, detail="", where=""):
+        if self._keep(rule, anchor, instance):
+            self._b.ok(rule, anchor, instance, detail, where)
+
+    def bad(self, rule, anchor, instance, detail, where=""):
+        if self._keep(rule, anchor, instance):
+            self._b.bad(rule, anchor, instance, detail, where)
+
+    def check(self, cond, rule, anchor, instance, detail="", where=""):
+        if self._keep(rule, anchor, instance):
+            return self._b.check(cond, rule, anchor, instance, detail, where)
+        return cond
+
+    def note(self, text):
+        self._b.note(text)
+
+    def count(self, n=1):
+        self._b.count(n)
+
+    def fn(self, path):
+        self._b.fn(path)
+
+    def floor(self, rule, minimum):
+        pass
+
+    def guarded(self, rule, anchor, fn):
+        self._b.guarded(rule, anchor, fn)
+
+    def scoped(self, suffix):
+        return Filtered(self._b.scoped(suffix), self._keep)
+
+
 def load_known(path=None):
     path = path or os.path.join(VERIF, "known_findings.txt")
     known = {}
